@@ -578,11 +578,31 @@ package raft
 //@ ensures r.wf()
 //@ ensures r.log.lastIdx() == old(r.log.lastIdx()) + len(entries)
 //@ ensures forall i int :: 0 <= i && i < len(entries) ==> entries[i].Term == r.term && entries[i].Index == old(r.log.lastIdx()) + 1 + i
+//@ ensures forall i int :: 0 <= i && i < len(entries) ==> entries[i].Type == old(entries[i].Type)
 //@ ensures len(entries) > 0 ==> (forall i int :: 0 <= i && i < len(entries) ==> r.log.termRaw(old(r.log.lastIdx()) + 1 + i) == entries[i].Term)
 //@ ensures len(entries) > 0 ==> (forall j int :: r.log.inmem.markerIndex <= j && j <= old(r.log.lastIdx()) ==> r.log.termRaw(j) == old(r.log.termRaw(j)))
 //@ ensures r.log.committed >= old(r.log.committed)
 //@ loop 1 modifies elems(entries)
 //@ loop 1 invariant r.wf() && lastIndex == r.log.lastIdx() && (forall k int :: 0 <= k && k <= $i ==> entries[k].Term == r.term && entries[k].Index == lastIndex + 1 + k)
+
+// C07 (one membership change at a time): while a config change is pending -- proposed and not yet
+// APPLIED, which is when the flag is cleared -- every further config-change entry of a proposal is
+// replaced by an empty application entry before it is appended; of the config-change entries of one
+// proposal at most one survives
+//@ func (r *raft) reportDroppedConfigChange [C07]
+//@ trusted records the dropped entry for the client (in-memory list)
+//@ func (r *raft) reportDroppedProposal [C07]
+//@ trusted records the dropped proposal for the client (in-memory list)
+//@ func (r *raft) handleLeaderPropose [C07 C02]
+//@ noframe
+//@ nobounds
+//@ requires r.wf() && r.term > 0 && r.log.lastIdx() + len(m.Entries) < MaxUint64 - 1 && disjoint(m.Entries, r.log.inmem.entries)
+//@ ensures old(r.leaderTransferTarget) == NoNode && old(r.pendingConfigChange) ==> (forall i int :: 0 <= i && i < len(m.Entries) ==> m.Entries[i].Type != pb.ConfigChangeEntry)
+//@ ensures old(r.leaderTransferTarget) == NoNode ==> (forall i int, j int :: 0 <= i && i < j && j < len(m.Entries) ==> !(m.Entries[i].Type == pb.ConfigChangeEntry && m.Entries[j].Type == pb.ConfigChangeEntry))
+//@ loop 1 modifies elems(m.Entries), r.pendingConfigChange
+//@ loop 1 invariant r.wf() && (old(r.pendingConfigChange) ==> r.pendingConfigChange)
+//@ loop 1 invariant forall k int :: 0 <= k && k <= $i ==> (m.Entries[k].Type == pb.ConfigChangeEntry ==> r.pendingConfigChange && !old(r.pendingConfigChange))
+//@ loop 1 invariant forall k1 int, k2 int :: 0 <= k1 && k1 < k2 && k2 <= $i ==> !(m.Entries[k1].Type == pb.ConfigChangeEntry && m.Entries[k2].Type == pb.ConfigChangeEntry)
 
 //@ func (r *raft) broadcastReplicateMessage [C03]
 //@ trusted body not verified here (builds Replicate messages for every peer)
@@ -805,6 +825,9 @@ package raft
 //@ modifies r.readIndex.queue, entries(r.readIndex.pending), allof(readStatus.index), r.msgs, elems(r.msgs[len(r.msgs):]), r.readyToRead
 // nothing is released (neither locally nor to a remote requester) before a quorum has confirmed
 //@ ensures !old(mk(pb.SystemCtx, m.Hint, m.HintHigh) in r.readIndex.pending) ==> len(r.readyToRead) == old(len(r.readyToRead)) && len(r.msgs) == old(len(r.msgs))
+// ... and the quorum is the quorum of ALL voting members (remotes and witnesses): whatever is released,
+// the confirmations recorded for this context plus the leader itself reach quorum()
+//@ ensures len(r.readyToRead) + len(r.msgs) > old(len(r.readyToRead)) + old(len(r.msgs)) ==> len(old(r.readIndex.pending[mk(pb.SystemCtx, m.Hint, m.HintHigh)]).confirmed) + 1 >= (len(r.remotes) + len(r.witnesses)) / 2 + 1
 //@ loop 1 invariant len(r.readyToRead) + len(r.msgs) <= old(len(r.readyToRead)) + old(len(r.msgs)) + $i + 1 && len(r.readyToRead) >= old(len(r.readyToRead)) && len(r.msgs) >= old(len(r.msgs))
 
 // An InstallSnapshot is always answered with the follower's COMMIT index (after a restore that is
